@@ -34,6 +34,10 @@ def gen_prune_op(rng, case, allow_crits=True, acc=False):
 
 
 def gen_item_C07(rng, idx, tier):
+    if idx == 11:
+        # one scale scenario per run: more structures than 15 bits count (harness/scale.py; evaluated on the implementation alone)
+        import scale
+        return scale.gen_many_structures(rng)
     case = gen.gen_compute_case(rng, maxpix=48 if tier == 'quick' else 80, force={'bigint': True})
     # start from a rich tree more often than not
     if rng.random() < 0.6:
@@ -137,6 +141,9 @@ FOREST_KEYS = ['par', 'kids', 'lvl', 'anc', 'desc', 'npix', 'npixsub', 'pixsub']
 
 
 def eval_C07(item):
+    if item.get('scale') == 'many-structures':
+        import scale
+        return scale.eval_many_structures_C07(item)
     item = copy.deepcopy(item)
     ops = list(item.get('ops', ()))
     # idempotence: repeat the last prune
